@@ -1954,9 +1954,22 @@ pub(crate) mod convert {
             deps: &mut Vec<UnitSectionOffset>,
             offset: LocationListsOffset,
         ) -> ConvertResult<()> {
-            let mut locations = self.read_unit.locations(offset)?;
+            // Use the raw entries, because the conversion converts every raw entry,
+            // including those that the resolving iterator skips as invalid.
+            let mut locations = self.read_unit.raw_locations(offset)?;
             while let Some(location) = locations.next()? {
-                self.add_expression_refs(deps, location.data)?;
+                let data = match location {
+                    read::RawLocListEntry::BaseAddress { .. }
+                    | read::RawLocListEntry::BaseAddressx { .. } => continue,
+                    read::RawLocListEntry::AddressOrOffsetPair { data, .. }
+                    | read::RawLocListEntry::StartxEndx { data, .. }
+                    | read::RawLocListEntry::StartxLength { data, .. }
+                    | read::RawLocListEntry::OffsetPair { data, .. }
+                    | read::RawLocListEntry::DefaultLocation { data }
+                    | read::RawLocListEntry::StartEnd { data, .. }
+                    | read::RawLocListEntry::StartLength { data, .. } => data,
+                };
+                self.add_expression_refs(deps, data)?;
             }
             Ok(())
         }
